@@ -84,7 +84,7 @@ func TestC16Damage(t *testing.T) {
 			// inbound exactly-once traffic leaves markers behind
 			actions["brokerSend2"] = func(rt *rapid.T) {
 				c := h.Current()
-				if c == nil || !c.State.Accepted || c.Blackholed() {
+				if c == nil || !c.Accepted() || c.Blackholed() {
 					rt.Skip("no accepted connection")
 				}
 				h.brokerSend(2, rapid.IntRange(0, 20).Draw(rt, "len"))
@@ -281,7 +281,7 @@ func TestC16Damage(t *testing.T) {
 			// (a retransmission of a message whose marker was damaged
 			// included) completes, and a later message arrives
 			var later *refmqtt.OutMsg
-			if cur := n.Current(); cur != nil && cur.State.Accepted {
+			if cur := n.Current(); cur != nil && cur.Accepted() {
 				later = n.brokerSend(1, 3)
 			}
 			// 5. drain completes everything resumed
